@@ -8,7 +8,7 @@ from .common import Ctx
 
 FILES = ["src/eolib/packet/packet_sequencer.py", "src/eolib/packet/sequence_start.py"]
 RULE = ("every history of length <= 7 (thorough: <= 9) over {next, set(0), set(5), set(1756)} from three initial starts, "
-        "plus seeded random histories up to 200 operations with arbitrary start values and every SequenceStart subclass; "
+        "plus histories of 300 to 66,000 requests (no / sparse / frequent updates) and seeded random histories up to 200 operations with arbitrary start values and every SequenceStart subclass; "
         "each next_sequence() result is compared with the model and with the specification start_in_force + n mod 10. "
         "distinct = (length, number of updates, number of wrap-arounds)")
 ASSUMPTIONS = []
@@ -74,6 +74,12 @@ def histories(ctx: Ctx):
             ops[pos] = 9
             yield start, ops, True
     rng = ctx.rng
+    # very long histories: a counter that is kept in some wider unit (a byte, 16 bits, ...) and reduced late only shows
+    # after that unit wraps (256, 65,536 requests); with no, sparse and frequent updates
+    for L in (300, 700, 1100, 4200, 66_000) + ((140_000,) if ctx.thorough else ()):
+        for p in (0.0, 0.003, 0.1):
+            ops = [rng.choice([0, 7, 1756, rng.randrange(0, 2000)]) if rng.random() < p else None for _ in range(L)]
+            yield rng.choice([0, 3, 1756]), ops, False
     for _ in range(20_000 if ctx.thorough else 3_000):
         L = rng.randrange(1, 201)
         p = rng.choice([0.0, 0.05, 0.2, 0.5])
